@@ -120,7 +120,7 @@ def main():
             checks.append({
                 "property_id": pid,
                 "quick_cmd": f"./check {pid} quick",
-                "thorough_cmd": f"./check {pid} thorough" + (" && ./check C11L thorough" if pid == "C11" else ""),
+                "thorough_cmd": f"./check {pid} thorough",
                 "evidence_file": f"/verif/evidence/{pid}.json",
                 "replay_cmd_template": "./check replay {path}",
                 "engine": eng,
